@@ -78,6 +78,26 @@ class Trace:
                     at_level=at, level_of=lof)
 
     # ---- ledger ----
+    def iterable_form(self, items):
+        """An argument documented as an ITERABLE is passed in one of its forms:
+        list, tuple, set, a one-shot generator, an iterator, a dict view.
+        Returns (form name, factory): the factory builds a fresh object per call
+        (a retried call must not see a consumed generator: the CALLER passes one
+        object, so the object is built once per recorded call)."""
+        items = list(items)
+        form = self.rng.choice(['list', 'tuple', 'set', 'generator', 'iterator', 'keys'])
+        if form == 'list':
+            return form, lambda: list(items)
+        if form == 'tuple':
+            return form, lambda: tuple(items)
+        if form == 'set':
+            return form, lambda: set(items)
+        if form == 'generator':
+            return form, lambda: (x for x in items)
+        if form == 'iterator':
+            return form, lambda: iter(items)
+        return form, lambda: dict.fromkeys(items).keys()
+
     def hold(self, u):
         self.bdd.incref(u)
         self.ext[abs(u)] = self.ext.get(abs(u), 0) + 1
@@ -169,14 +189,15 @@ class Trace:
 
     def quantify(self, u, qvars, forall, hold=True, route='quantify'):
         qv = sorted(qvars)
+        form, mk = self.iterable_form(qv)      # `qvars: Iterable[VariableName]`
         if route == 'quantify':
-            fn = lambda: self.bdd.quantify(u, set(qv), forall=forall)
+            fn = lambda: self.bdd.quantify(u, mk(), forall=forall)
         elif forall:
-            fn = lambda: self.bdd.forall(set(qv), u)
+            fn = lambda: self.bdd.forall(mk(), u)
         else:
-            fn = lambda: self.bdd.exist(set(qv), u)
+            fn = lambda: self.bdd.exist(mk(), u)
         return self.call(
-            'quantify', dict(u=u, qvars=qv, forall=bool(forall), route=route),
+            'quantify', dict(u=u, qvars=qv, forall=bool(forall), route=route, form=form),
             fn, hold=hold)
 
     def cofactor(self, u, values, hold=True, route='let'):
@@ -261,11 +282,12 @@ class Trace:
 
     def gc_roots(self, roots):
         roots = list(roots)
+        form, mk = self.iterable_form(roots)
 
         def fn():
-            self.bdd.collect_garbage(roots)
+            self.bdd.collect_garbage(mk())
             return 0
-        return self.call('gc_roots', dict(roots=roots), fn)
+        return self.call('gc_roots', dict(roots=roots, form=form), fn)
 
     def swap(self, x, y, expect_ok=True):
         if isinstance(x, str):
@@ -358,8 +380,9 @@ class Trace:
 
     def descendants(self, roots):
         roots = list(roots)
-        return self.call('descendants', dict(roots=roots),
-                         lambda: self.bdd.descendants(roots), conv=lambda r: sorted(r))
+        form, mk = self.iterable_form(roots)
+        return self.call('descendants', dict(roots=roots, form=form),
+                         lambda: self.bdd.descendants(mk()), conv=lambda r: sorted(r))
 
     def size(self, u):
         return self.call('size', dict(u=u), lambda: len(self.bdd.descendants([u])), conv=int)
